@@ -109,7 +109,10 @@ struct VariantOut {
     ir: Ir,
     inv: Inventory,
     bindings: String,
+    #[allow(dead_code)]
     models: BTreeMap<u64, ModelAgg>,
+    /// aggregates whose attribute combination rustc rejects (region-classified)
+    rejected_types: BTreeSet<String>,
 }
 
 fn has_inexact_pad_real(agg: &inventory::Agg) -> bool {
@@ -129,7 +132,7 @@ fn has_inexact_pad_real(agg: &inventory::Agg) -> bool {
 
 #[allow(clippy::too_many_arguments)]
 fn run_variant(scratch: &Scratch, header_name: &str, text: &str, vname: &str, flags: &[&str], clang_args: &[&str], infos: &BTreeMap<String, RecInfo>,
-               stats: &mut Stats, issues: &mut Vec<Issue>) -> Option<VariantOut> {
+               stats: &mut Stats, issues: &mut Vec<Issue>, failure: &mut Option<(Option<String>, Option<String>)>) -> Option<VariantOut> {
     let out = drive::generate_text(scratch, header_name, text, flags, clang_args, true);
     stats.variants_run += 1;
     let mk = |class: &str, comp: &str, detail: String, known: Option<String>| Issue { class: class.into(), variant: vname.into(), comp: comp.into(), detail, known, header: text.to_string() };
@@ -137,7 +140,7 @@ fn run_variant(scratch: &Scratch, header_name: &str, text: &str, vname: &str, fl
         Some(b) => b.clone(),
         None => {
             stats.bindgen_errors += 1;
-            issues.push(mk("bindgen-failed", "", format!("error={:?} panic={:?}", out.error, out.panic), None));
+            *failure = Some((out.error.clone(), out.panic.clone()));
             return None;
         }
     };
@@ -151,7 +154,16 @@ fn run_variant(scratch: &Scratch, header_name: &str, text: &str, vname: &str, fl
     let mo = ModelOpts { force_padding: flags.contains(&"--explicit-padding"), ptr_size: 8, u64_align: 8,
                          manually_drop: flags.windows(2).any(|w| w[0] == "--default-non-copy-union-style" && w[1] == "manually_drop") };
     let comps: Vec<&IrComp> = ir.comps.iter().filter(|c| c.codegen && !c.nontype_tparams && c.all_tparams_empty).collect();
-    let reqs: Vec<String> = comps.iter().map(|c| irlayout::model_request(&ir, c, &mo, infos.get(&c.rust_name).map(|i| i.packed_attr))).collect();
+    let reqs: Vec<String> = comps.iter().map(|c| {
+        let ca: Vec<bool> = c.fields.iter().map(|f| {
+            if f.is_unit { return false; }
+            match (inv.aggs.get(&c.rust_name), &f.name) {
+                (Some(a), Some(n)) => a.fields.iter().find(|x| &x.0 == n).map_or(false, |x| inv.contains_align(&x.1, 0)),
+                _ => false,
+            }
+        }).collect();
+        irlayout::model_request(&ir, c, &mo, infos.get(&c.rust_name).map(|i| i.packed_attr), &ca)
+    }).collect();
     let answers = if reqs.is_empty() { vec![] } else { util::model(&reqs) };
     stats.model_requests += reqs.len() as u64;
     // members are assumed faithful (each record is judged on its own; a wrong nested record is
@@ -159,6 +171,7 @@ fn run_variant(scratch: &Scratch, header_name: &str, text: &str, vname: &str, fl
     let mut resolver = Resolver::new(&inv);
     for c in &ir.comps { if let Some(l) = c.layout { if !c.fwd { resolver.assume.insert(c.rust_name.clone(), l); } } }
     let mut models = BTreeMap::new();
+    let mut rejected_types: BTreeSet<String> = BTreeSet::new();
     for ((c, req), ans) in comps.iter().zip(reqs.iter()).zip(answers.iter()) {
         stats.comps_checked += 1;
         let m = match irlayout::parse_model_answer(ans) {
@@ -206,15 +219,50 @@ fn run_variant(scratch: &Scratch, header_name: &str, text: &str, vname: &str, fl
                     }
                 }
             } else {
-                diffs.push("real aggregate could not be resolved to a layout".into());
+                let bad: Vec<String> = agg.fields.iter().filter(|f| resolver.type_layout(&f.1, &BTreeMap::new()).is_none()).map(|f| format!("{}: {}", f.0, inventory::type_text(&f.1))).collect();
+                diffs.push(format!("real aggregate could not be resolved to a layout: {bad:?}"));
             }
         }
         if !diffs.is_empty() {
             issues.push(mk("correspondence", &c.rust_name, format!("{} | request: {req} | answer: {ans}", diffs.join("; ")), None));
         }
+        // ---- regions, read off the real aggregate (mirror of Model/LayoutRegions.lean)
+        let mut regions: Vec<String> = vec![];
+        {
+            if agg.packed.is_none() && !agg.is_union && !c.is_union && c.fields.iter().any(|f| !f.is_unit && match (f.off_bits, f.layout) { (Some(o), Some((_, a))) => (o / 8) % a.max(1) != 0, _ => false }) {
+                regions.push("unpacked_misaligned_member".into());
+            }
+            let n = agg.fields.len();
+            if n >= 2 && agg.fields[n - 1].0.starts_with("__bindgen_padding_") && agg.fields[n - 2].0.starts_with("__bindgen_padding_") { regions.push("explicit_padding_double_tail".into()); }
+            if agg.fields.iter().any(|f| f.0.starts_with("__bindgen_padding_")) && agg.fields.iter().any(|f| f.0 == "bindgen_union_field") { regions.push("explicit_padding_union_wrapper".into()); }
+            if c.is_union && c.fields.iter().any(|f| f.is_unit && f.layout.map_or(false, |(sz, _)| f.bfs.iter().map(|b| b.2 + b.3).max().unwrap_or(0) > 8 * sz)) { regions.push("union_bitfield_unit_short".into()); }
+        }
+        if has_inexact_pad_real(agg) { regions.push("pad_blob_inexact".into()); }
+        if agg.packed.is_some() && agg.align.is_some() { regions.push("packed_align_conflict".into()); }
+        if agg.packed.is_some() && agg.fields.iter().any(|f| inv.contains_align(&f.1, 0)) { regions.push("packed_contains_aligned".into()); }
+        if let (Some((_, ca)), Some(rl)) = (c.layout, &real_layout) {
+            if c.is_packed && !c.opaque && agg.packed.is_none() && rl.fields.iter().any(|f| f.2 > ca) { regions.push("packed_dropped".into()); }
+        }
+        if let Some(n) = agg.packed {
+            if n > 1 && c.fields.iter().any(|f| !f.is_unit && match (f.off_bits, f.layout) { (Some(o), Some((_, a))) => (o / 8) % a.max(1).min(n) != 0, _ => false }) {
+                regions.push("packedN_misplaces".into());
+            }
+        }
+        let regions_agree = diffs.is_empty() && regions == m.regions;
+        if diffs.is_empty() && regions != m.regions {
+            issues.push(mk("correspondence", &c.rust_name, format!("regions: model {:?} harness {:?} | request: {req} | answer: {ans}", m.regions, regions), None));
+        }
+        let rejected = regions.iter().any(|r| r == "packed_align_conflict" || r == "packed_contains_aligned");
+        if rejected {
+            // rustc refuses the type: nothing to measure; the probe confirms the rejection
+            let known = if regions_agree && m.reprc.is_none() { Some(regions.join("+")) } else { None };
+            if known.is_some() { stats.known_hits += 1; }
+            issues.push(mk("oracle", &c.rust_name, format!("rustc rejects the emitted type ({}) | request: {req} | answer: {ans}", regions.join("+")), known));
+            rejected_types.insert(c.rust_name.clone());
+        }
         // ---- (b) property instance: emitted aggregate's layout vs libclang's numbers
         if let (Some((cs, ca)), Some(rl)) = (c.layout, &real_layout) {
-            if !c.fwd {
+            if !c.fwd && !rejected {
                 let mut bad = vec![];
                 if rl.size != cs { bad.push(format!("size rust {} C {}", rl.size, cs)); }
                 if rl.align != ca { bad.push(format!("align rust {} C {}", rl.align, ca)); }
@@ -233,9 +281,9 @@ fn run_variant(scratch: &Scratch, header_name: &str, text: &str, vname: &str, fl
                         let mo: Vec<(usize, u64)> = o.iter().filter(|(i, _)| offs_real.iter().any(|(j, _)| j == i)).cloned().collect();
                         mo == offs_real
                     });
-                    let known = if diffs.is_empty() && has_inexact_pad_real(agg) && m.inexact_pad && predicted { Some("pad_blob_inexact".to_string()) } else { None };
+                    let known = if regions_agree && !regions.is_empty() && predicted { Some(regions.join("+")) } else { None };
                     if known.is_some() { stats.known_hits += 1; }
-                    issues.push(mk("oracle", &c.rust_name, format!("{} | model reprC {:?}", bad.join("; "), m.reprc), known));
+                    issues.push(mk("oracle", &c.rust_name, format!("{} | model reprC {:?} | request: {req} | answer: {ans}", bad.join("; "), m.reprc), known));
                 } else if stats.samples.len() < 3 && c.fields.len() >= 3 {
                     stats.samples.push(format!("{{\"variant\":{},\"request\":{},\"model\":{},\"real_layout\":{},\"clang\":{}}}", json_str(vname), json_str(req), json_str(ans),
                         json_str(&format!("{:?}", (rl.size, rl.align, &rl.offsets))), json_str(&format!("{:?}", (cs, ca)))));
@@ -244,22 +292,47 @@ fn run_variant(scratch: &Scratch, header_name: &str, text: &str, vname: &str, fl
         }
         models.insert(c.id, m);
     }
-    Some(VariantOut { ir, inv, bindings, models })
+    Some(VariantOut { ir, inv, bindings, models, rejected_types })
 }
 
-/// rustc probe over the baseline bindings (assertion items removed): validates the resolver and
-/// the model's reprC against rustc.
-fn validate_rustc(scratch: &Scratch, tag: &str, vo: &VariantOut, prefix: &str, text: &str, vname: &str, stats: &mut Stats, issues: &mut Vec<Issue>) {
-    let mut src = String::new();
-    for it in &vo.inv.other_items {
-        src.push_str(it);
-        src.push('\n');
+/// Type definitions of the baseline bindings that rustc accepts: compile the definitions alone
+/// (no impls, no assertions); every aggregate whose definition is refused is removed together
+/// with its dependents and the compile is repeated.  Returns the set of removed aggregates.
+/// A refused definition that the region check did not already classify is reported.
+fn accepted_types(scratch: &Scratch, tag: &str, vo: &VariantOut, text: &str, vname: &str, stats: &mut Stats, issues: &mut Vec<Issue>) -> BTreeSet<String> {
+    let mut removed: BTreeSet<String> = vo.inv.dependents(&vo.rejected_types);
+    for round in 0..6 {
+        let (src, names) = vo.inv.types_source(&removed);
+        let errs = probe::rustc_error_lines(scratch, &format!("{tag}_t{round}"), &format!("#![allow(warnings)]\n{src}"), &[]);
+        if errs.is_empty() { return removed; }
+        let mut roots = BTreeSet::new();
+        for (ln, msg) in &errs {
+            // line 1 is the inner attribute
+            let name = if *ln >= 2 { names.get(ln - 2).cloned().unwrap_or_default() } else { String::new() };
+            if name.is_empty() {
+                issues.push(Issue { class: "machinery".into(), variant: vname.into(), comp: String::new(), detail: format!("type definitions do not compile: line {ln}: {msg}"), known: None, header: text.into() });
+                return vo.inv.aggs.keys().cloned().collect();
+            }
+            if roots.insert(name.clone()) {
+                *stats.branches.entry("rustc_rejects_type".into()).or_default() += 1;
+                issues.push(Issue { class: "oracle".into(), variant: vname.into(), comp: name.clone(),
+                    detail: format!("rustc rejects the emitted type outside the modelled regions: {msg}"), known: None, header: text.into() });
+            }
+        }
+        removed = vo.inv.dependents(&removed.union(&roots).cloned().collect());
     }
+    removed
+}
+
+/// rustc probe over the accepted type definitions: validates the repr(C) resolver (and through the
+/// layout comparison the model's `reprC`) against rustc.
+fn validate_rustc(scratch: &Scratch, tag: &str, vo: &VariantOut, removed: &BTreeSet<String>, text: &str, vname: &str, stats: &mut Stats, issues: &mut Vec<Issue>) {
+    let (src, _) = vo.inv.types_source(removed);
     let resolver = Resolver::new(&vo.inv);
     let mut queries = vec![];
     let mut expect: Vec<(String, u64)> = vec![];
     for (name, agg) in &vo.inv.aggs {
-        if !agg.generics.is_empty() { continue; }
+        if !agg.generics.is_empty() || removed.contains(name) { continue; }
         let l = match resolver.agg_layout(name) { Some(l) => l, None => continue };
         queries.push(RQuery::Size(name.clone())); expect.push((format!("size_of {name}"), l.size));
         queries.push(RQuery::Align(name.clone())); expect.push((format!("align_of {name}"), l.align));
@@ -271,9 +344,10 @@ fn validate_rustc(scratch: &Scratch, tag: &str, vo: &VariantOut, prefix: &str, t
             expect.push((format!("align_of type of {name}.{f}"), *fa));
         }
     }
+    let prefix = if vo.inv.other_items.iter().any(|i| i == "pub mod root {") { "b::root::" } else { "b::" };
     match probe::rustc_probe(scratch, tag, &src, prefix, &queries) {
-        Err(e) => issues.push(Issue { class: "asserts-compile".into(), variant: vname.into(), comp: String::new(),
-            detail: format!("bindings (assertions removed) do not compile / run: {}", e.chars().take(1500).collect::<String>()), known: None, header: text.into() }),
+        Err(e) => issues.push(Issue { class: "machinery".into(), variant: vname.into(), comp: String::new(),
+            detail: format!("rustc probe does not compile / run: {}", e.chars().take(1500).collect::<String>()), known: None, header: text.into() }),
         Ok(vals) => {
             stats.rustc_values += vals.len() as u64;
             for ((what, want), got) in expect.iter().zip(vals.iter()) {
@@ -286,24 +360,41 @@ fn validate_rustc(scratch: &Scratch, tag: &str, vo: &VariantOut, prefix: &str, t
     }
 }
 
-/// the embedded `const _` assertions: compile the unmodified bindings; every failing assertion
-/// item must belong to a record already reported by the layout comparison
-fn validate_asserts(scratch: &Scratch, tag: &str, vo: &VariantOut, text: &str, bad_comps: &BTreeSet<String>, issues: &mut Vec<Issue>) {
-    let src = match inventory::one_item_per_line(&vo.bindings) { Ok(s) => s, Err(e) => { issues.push(Issue { class: "machinery".into(), variant: "base".into(), comp: String::new(), detail: e, known: None, header: text.into() }); return; } };
-    let errs = probe::rustc_error_lines(scratch, tag, &src, &[]);
-    let lines: Vec<&str> = src.lines().collect();
+/// the embedded `const _` assertions: accepted type definitions + their assertion items must
+/// compile, except the assertions of records the layout comparison already reported
+#[allow(clippy::too_many_arguments)]
+fn validate_asserts(scratch: &Scratch, tag: &str, vo: &VariantOut, removed: &BTreeSet<String>, text: &str, bad_comps: &BTreeSet<String>, bad_direct: &BTreeSet<String>, stats: &mut Stats, issues: &mut Vec<Issue>) {
+    let (mut src, _) = vo.inv.types_source(removed);
+    let n_type_lines = src.lines().count();
+    let mut line_ty = vec![];
+    for (a, t) in vo.inv.assert_items.iter().zip(vo.inv.assert_texts.iter()) {
+        let ty = a.first().map(|x| x.ty.clone()).unwrap_or_default();
+        if removed.contains(&ty) { continue; }
+        src.push_str(t); src.push('\n');
+        line_ty.push(ty);
+    }
+    *stats.branches.entry("assert_items_compiled".into()).or_default() += line_ty.len() as u64;
+    let errs = probe::rustc_error_lines(scratch, &format!("{tag}_a"), &format!("#![allow(warnings)]\n{src}"), &[]);
+    let mut failing = BTreeSet::new();
     for (ln, msg) in errs {
-        let item = if ln >= 1 && ln <= lines.len() { lines[ln - 1] } else { "" };
-        let ty = item.find("[\"Size of ").map(|p| { let r = &item[p + 10..]; r[..r.find('"').unwrap_or(0)].to_string() });
-        match ty {
-            Some(t) if item.starts_with("# [allow") || item.starts_with("#[allow") || item.contains("const _ : ()") => {
-                if !bad_comps.contains(&t) {
-                    issues.push(Issue { class: "asserts-compile".into(), variant: "base".into(), comp: t.clone(),
-                        detail: format!("layout assertion of {t} fails in rustc ({msg}) although the resolved layout equals libclang's"), known: None, header: text.into() });
-                }
-            }
-            _ => issues.push(Issue { class: "asserts-compile".into(), variant: "base".into(), comp: String::new(),
-                    detail: format!("bindings do not compile: line {ln}: {msg}: {}", item.chars().take(300).collect::<String>()), known: None, header: text.into() }),
+        let idx = ln as i64 - 2 - n_type_lines as i64;
+        if idx < 0 || idx as usize >= line_ty.len() {
+            issues.push(Issue { class: "machinery".into(), variant: "base".into(), comp: String::new(), detail: format!("assertion compile: unexpected error at line {ln}: {msg}"), known: None, header: text.into() });
+            continue;
+        }
+        failing.insert(line_ty[idx as usize].clone());
+    }
+    for t in &failing {
+        if !bad_comps.contains(t) {
+            issues.push(Issue { class: "asserts-compile".into(), variant: "base".into(), comp: t.clone(),
+                detail: format!("layout assertion of {t} fails in rustc although the resolved layout equals libclang's"), known: None, header: text.into() });
+        }
+    }
+    // the converse: a record reported as laid out wrongly must fail its assertion
+    for t in bad_direct {
+        if line_ty.contains(t) && !failing.contains(t) && vo.ir.comps.iter().any(|c| &c.rust_name == t && c.all_tparams_empty) {
+            issues.push(Issue { class: "asserts-compile".into(), variant: "base".into(), comp: t.clone(),
+                detail: format!("layout of {t} was computed to differ from libclang's but its assertion compiles"), known: None, header: text.into() });
         }
     }
 }
@@ -357,7 +448,8 @@ fn leaf_value(k: usize, l: &cgen::Leaf) -> (String, String) {
 
 /// Linked value round trip: C fills every leaf with a distinct value, Rust reads through the
 /// bindings; Rust fills, C checks.
-fn roundtrip(scratch: &Scratch, tag: &str, header_name: &str, prog: &Program, vo: &VariantOut, skip: &BTreeSet<String>, text: &str, stats: &mut Stats, issues: &mut Vec<Issue>) {
+#[allow(clippy::too_many_arguments)]
+fn roundtrip(scratch: &Scratch, tag: &str, header_name: &str, prog: &Program, vo: &VariantOut, skip: &BTreeSet<String>, removed: &BTreeSet<String>, text: &str, stats: &mut Stats, issues: &mut Vec<Issue>) {
     let mut c_src = format!("#include \"{header_name}\"\n");
     let mut r_main = String::new();
     let mut r_ext = String::new();
@@ -375,7 +467,7 @@ fn roundtrip(scratch: &Scratch, tag: &str, header_name: &str, prog: &Program, vo
         let mut fill = format!("void fill_{rn}({ct} *p) {{ __builtin_memset(p, 0, sizeof(*p));\n");
         let mut check = format!("int check_{rn}(const {ct} *p) {{\n");
         let _ = writeln!(r_ext, "  fn fill_{rn}(p: *mut b::{rn}); fn check_{rn}(p: *const b::{rn}) -> i32;");
-        let _ = writeln!(r_main, "  {{ let mut o = ::std::mem::MaybeUninit::<b::{rn}>::zeroed(); let p = o.as_mut_ptr(); unsafe {{ fill_{rn}(p);");
+        let _ = writeln!(r_main, "  {{ let p: *mut b::{rn} = heap(); unsafe {{ fill_{rn}(p);");
         let mut wr = String::new();
         for (k, l) in leaves.iter().enumerate() {
             let (cv, rv) = leaf_value(k, l);
@@ -387,7 +479,7 @@ fn roundtrip(scratch: &Scratch, tag: &str, header_name: &str, prog: &Program, vo
         }
         fill.push_str("}\n"); check.push_str("  return 0;\n}\n");
         c_src.push_str(&fill); c_src.push_str(&check);
-        let _ = writeln!(r_main, "    let mut o2 = ::std::mem::MaybeUninit::<b::{rn}>::zeroed(); let p = o2.as_mut_ptr();\n{wr}    let r = check_{rn}(p); if r != 0 {{ println!(\"MISMATCH {rn} Rust->C leaf {{}}\", r); }} }} }}");
+        let _ = writeln!(r_main, "    let p: *mut b::{rn} = heap();\n{wr}    let r = check_{rn}(p); if r != 0 {{ println!(\"MISMATCH {rn} Rust->C leaf {{}}\", r); }} }} }}");
         stats.roundtrip_leaves += leaves.len() as u64;
     }
     if n_structs == 0 { return; }
@@ -396,9 +488,9 @@ fn roundtrip(scratch: &Scratch, tag: &str, header_name: &str, prog: &Program, vo
         Ok(o) => o,
         Err(e) => { issues.push(Issue { class: "machinery".into(), variant: "base".into(), comp: String::new(), detail: format!("round-trip C side does not compile: {}", e.chars().take(800).collect::<String>()), known: None, header: text.into() }); return; }
     };
-    let mut bsrc = String::new();
-    for it in &vo.inv.other_items { bsrc.push_str(it); bsrc.push('\n'); }
-    let src = format!("#![allow(warnings)]\nmod b {{\n{bsrc}\n}}\nextern \"C\" {{\n{r_ext}}}\nfn main() {{\n{r_main}  println!(\"DONE\");\n}}\n");
+    let (bsrc, _) = vo.inv.types_source(removed);
+    let heap = "fn heap<T>() -> *mut T { unsafe { let l = ::std::alloc::Layout::new::<T>(); if l.size() == 0 { ::std::ptr::NonNull::<T>::dangling().as_ptr() } else { ::std::alloc::alloc_zeroed(l) as *mut T } } }";
+    let src = format!("#![allow(warnings)]\nmod b {{\n{bsrc}\n}}\n{heap}\nextern \"C\" {{\n{r_ext}}}\nfn main() {{\n{r_main}  println!(\"DONE\");\n}}\n");
     match drive::rustc_bin(scratch, &format!("{tag}_rtmain"), &src, &[obj], &["-C", "debuginfo=0"]) {
         Err(e) => issues.push(Issue { class: "roundtrip".into(), variant: "base".into(), comp: String::new(), detail: format!("round-trip Rust side does not compile: {}", e.chars().take(1200).collect::<String>()), known: None, header: text.into() }),
         Ok(exe) => {
@@ -423,31 +515,47 @@ fn run_header(scratch: &Scratch, tag: &str, text: &str, prog: Option<&Program>, 
     let before = issues.len();
     for &vi in variants {
         let (vname, flags) = VARIANTS[vi];
-        let vo = run_variant(scratch, &header_name, text, vname, flags, &[], &infos, stats, issues);
+        let mut failure = None;
+        let vo = run_variant(scratch, &header_name, text, vname, flags, &[], &infos, stats, issues, &mut failure);
+        if let Some((err, panic)) = failure {
+            // generation failed: if the baseline succeeded, ask the model (on the baseline IR, with this
+            // variant's options) whether it predicts the panic
+            let mut known = None;
+            let mut comp = String::new();
+            if let (Some(b), Some(pm)) = (&base, &panic) {
+                if pm.contains("subtract with overflow") {
+                    let mo = ModelOpts { force_padding: flags.contains(&"--explicit-padding"), ptr_size: 8, u64_align: 8, manually_drop: false };
+                    let comps: Vec<&IrComp> = b.ir.comps.iter().filter(|c| c.codegen && !c.nontype_tparams && c.all_tparams_empty).collect();
+                    let reqs: Vec<String> = comps.iter().map(|c| irlayout::model_request(&b.ir, c, &mo, infos.get(&c.rust_name).map(|i| i.packed_attr), &[])).collect();
+                    let answers = if reqs.is_empty() { vec![] } else { util::model(&reqs) };
+                    for (c, a) in comps.iter().zip(answers.iter()) {
+                        if a == "emit panic" { known = Some("tail_padding_underflow".to_string()); comp = c.rust_name.clone(); stats.known_hits += 1; break; }
+                    }
+                }
+            }
+            issues.push(Issue { class: if panic.is_some() { "oracle".into() } else { "bindgen-failed".into() }, variant: vname.into(), comp,
+                detail: format!("bindgen produced no bindings: error={err:?} panic={panic:?}"), known, header: text.to_string() });
+        }
         if vi == 0 { base = vo; }
     }
     let base = match base { Some(b) => b, None => return };
     let bad_comps: BTreeSet<String> = issues[before..].iter().filter(|i| i.class == "oracle" && i.variant == "base").map(|i| i.comp.clone()).collect();
-    let mut bad_closure = bad_comps.clone();
-    loop {
-        let mut grew = false;
-        for (name, agg) in &base.inv.aggs {
-            if bad_closure.contains(name) { continue; }
-            let txt: String = agg.fields.iter().map(|f| inventory::type_text(&f.1)).collect::<Vec<_>>().join(" ");
-            if bad_closure.iter().any(|s| txt.split(|c: char| !c.is_alphanumeric() && c != '_').any(|w| w == s)) { bad_closure.insert(name.clone()); grew = true; }
-        }
-        if !grew { break; }
-    }
+    let removed = if do_probes || do_roundtrip { accepted_types(scratch, tag, &base, text, "base", stats, issues) } else { BTreeSet::new() };
+    // records whose own layout is wrong, and everything that contains them
+    let bad_closure = base.inv.dependents(&bad_comps);
     if do_probes {
-        validate_rustc(scratch, tag, &base, "b::", text, "base", stats, issues);
-        validate_asserts(scratch, tag, &base, text, &bad_closure, issues);
+        validate_rustc(scratch, tag, &base, &removed, text, "base", stats, issues);
+        validate_asserts(scratch, tag, &base, &removed, text, &bad_closure, &bad_comps, stats, issues);
         validate_clang(scratch, tag, &scratch.path(&header_name), &base, &infos, text, stats, issues);
     }
     if do_roundtrip {
         if let Some(p) = prog {
-            // records with a wrong layout (already reported) and everything containing them are skipped
-            let skip = bad_closure.clone();
-            roundtrip(scratch, tag, &header_name, p, &base, &skip, text, stats, issues);
+            // skipped: wrong layout (already reported), rejected by rustc, unions in wrapper form
+            // (members are reached through accessor methods, not fields)
+            let wrappers: BTreeSet<String> = base.inv.aggs.iter().filter(|(_, a)| a.fields.iter().any(|f| inventory::type_text(&f.1).contains("__BindgenUnionField<"))).map(|(n, _)| n.clone()).collect();
+            let mut skip: BTreeSet<String> = bad_closure.union(&removed).cloned().collect();
+            skip = base.inv.dependents(&skip.union(&wrappers).cloned().collect());
+            roundtrip(scratch, tag, &header_name, p, &base, &skip, &removed, text, stats, issues);
         }
     }
 }
@@ -582,10 +690,20 @@ fn main() {
     let _ = writeln!(rep, " \"comps_by_kind\": {{{}}},", kinds.join(", "));
     let br: Vec<String> = stats.branches.iter().map(|(k, v)| format!("{}: {v}", json_str(k))).collect();
     let _ = writeln!(rep, " \"model_branches_hit\": {{{}}},", br.join(", "));
+    let mut by_region: BTreeMap<String, u64> = BTreeMap::new();
+    let mut region_examples: BTreeMap<String, String> = BTreeMap::new();
+    for i in &issues { if let Some(k) = &i.known { *by_region.entry(k.clone()).or_default() += 1;
+        region_examples.entry(k.clone()).or_insert_with(|| format!("{} [{}] {}", i.comp, i.variant, i.detail.chars().take(700).collect::<String>())); } }
+    let kr: Vec<String> = by_region.iter().map(|(k, v)| format!("{}: {v}", json_str(k))).collect();
+    let _ = writeln!(rep, " \"known_by_region\": {{{}}},", kr.join(", "));
+    let ke: Vec<String> = region_examples.iter().map(|(k, v)| format!("{}: {}", json_str(k), json_str(v))).collect();
+    let _ = writeln!(rep, " \"known_region_examples\": {{{}}},", ke.join(", "));
     let bc: Vec<String> = by_class.iter().map(|(k, v)| format!("{}: {v}", json_str(k))).collect();
     let _ = writeln!(rep, " \"issues_by_class\": {{{}}},", bc.join(", "));
     let _ = writeln!(rep, " \"samples\": [{}],", stats.samples.join(", "));
-    let iss: Vec<String> = issues.iter().filter(|i| i.known.is_none()).chain(issues.iter().filter(|i| i.known.is_some()).take(20)).take(400).map(|i| format!("{{\"class\":{},\"variant\":{},\"comp\":{},\"detail\":{},\"known\":{},\"header\":{}}}",
+    let mut per_region: BTreeMap<String, u32> = BTreeMap::new();
+    let known_sel: Vec<&Issue> = issues.iter().filter(|i| i.known.is_some()).filter(|i| { let n = per_region.entry(i.known.clone().unwrap()).or_default(); *n += 1; *n <= 2 }).collect();
+    let iss: Vec<String> = issues.iter().filter(|i| i.known.is_none()).take(300).chain(known_sel.into_iter()).map(|i| format!("{{\"class\":{},\"variant\":{},\"comp\":{},\"detail\":{},\"known\":{},\"header\":{}}}",
         json_str(&i.class), json_str(&i.variant), json_str(&i.comp), json_str(&i.detail.chars().take(2500).collect::<String>()),
         i.known.as_ref().map_or("null".to_string(), |k| json_str(k)), json_str(&i.header.chars().take(6000).collect::<String>()))).collect();
     let _ = writeln!(rep, " \"issues\": [{}]\n}}", iss.join(",\n  "));
